@@ -467,6 +467,53 @@ class HexInt:
     def __hash__(self):
         return 13
 
+    def _cmp(self, o, op):
+        if not isinstance(o, (int, HexInt)) or isinstance(o, bool):
+            return NotImplemented
+        bits = 4 * max(len(self.nibs), len(HexInt.of(o).nibs))
+        a = self.bv(bits)
+        b = HexInt.of(o).bv(bits)
+        return mk_bool(op(a, b))
+
+    def __lt__(self, o):
+        return self._cmp(o, z3.ULT)
+
+    def __le__(self, o):
+        return self._cmp(o, z3.ULE)
+
+    def __gt__(self, o):
+        return self._cmp(o, z3.UGT)
+
+    def __ge__(self, o):
+        return self._cmp(o, z3.UGE)
+
+    def __and__(self, k):
+        if isinstance(k, int) and k == 0x0f:
+            return HexInt(self.nibs[-1:])
+        if isinstance(k, int) and k == 0xf0 and len(self.nibs) >= 2:
+            return HexInt([self.nibs[-2], z3.BitVecVal(0, 4)])
+        raise Unsupported('bit-and of a symbolic hex integer with %r' % (k,))
+    __rand__ = __and__
+
+    def __rshift__(self, k):
+        if isinstance(k, int) and k % 4 == 0:
+            n = k // 4
+            return HexInt(self.nibs[:-n] if n < len(self.nibs) else [0]) if n else self
+        raise Unsupported('shift of a symbolic hex integer by %r' % (k,))
+
+    def __lshift__(self, k):
+        if isinstance(k, int) and k % 4 == 0:
+            return HexInt(self.nibs + [z3.BitVecVal(0, 4)] * (k // 4))
+        raise Unsupported('shift of a symbolic hex integer by %r' % (k,))
+
+    def __or__(self, o):
+        try:
+            a, b = self._align(o)
+        except TypeError:
+            return NotImplemented
+        return HexInt([z3.simplify(x | y) for x, y in zip(a, b)])
+    __ror__ = __or__
+
     def significant(self):
         """number of hex digits without leading zeros (forks; at least 1)"""
         n = len(self.nibs)
@@ -495,9 +542,14 @@ class HexInt:
 
     def __sstr__(self):
         # decimal rendering: only for a single digit 0..9
-        if len(self.nibs) == 1:
-            if mk_bool(z3.ULE(self.nibs[0], 9)):
-                return SymStr([HexNib(self.nibs[0])])
+        nibs = self.nibs
+        while len(nibs) > 1 and mk_bool(nibs[0] == 0):
+            nibs = nibs[1:]
+        if len(nibs) == 1:
+            if mk_bool(z3.ULE(nibs[0], 9)):
+                return SymStr([HexNib(nibs[0])])
+            v = core.cur().concretize(SInt(z3.BV2Int(nibs[0])), limit=20)
+            return SymStr(list(str(v)))
         raise Unsupported('str() of a symbolic hex integer')
 
     def to_bytes(self, length, byteorder='big', **kw):
@@ -566,7 +618,16 @@ class SymBytes:
             for i in idx:
                 out += self.nibs[2 * i:2 * i + 2]
             return SymBytes(out)
+        if isinstance(k, int):
+            n = len(self)
+            if k < -n or k >= n:
+                raise IndexError('index out of range')
+            k %= n
+            return HexInt(self.nibs[2 * k:2 * k + 2])       # a byte value 0..255
         raise Unsupported('indexing symbolic bytes')
+
+    def __iter__(self):
+        return iter([HexInt(self.nibs[2 * i:2 * i + 2]) for i in range(len(self))])
 
     def __eq__(self, o):
         try:
